@@ -20,7 +20,7 @@ LEVEL_TEXT = ("Each case is a history of up to 60 datagrams, every one tagged by
               "deliveries' is checked up to the sentinel barrier.")
 RULE = ("case = ports (1..4) + callback indices that raise + datagram list (kind, port, parameters); non-trivial = at least one valid "
         "datagram after a bad datagram or a raising callback on the same port; distinct by the label sequence with ports."
-        ' Datagram kinds include byte-identical repeats of earlier datagrams (same or other port); the bridge is optionally stopped and started again before the traffic; the callback is a bound method, function, partial, bound method of an otherwise unreferenced object, or a callable that is falsy.')
+        ' Histories also contain silences of 1 s .. 25 h of event-loop time (harness-owned loop clock), steps of the wall clock (back and forth, time_machine) and optionally a replaced event loop (bridge stopped, loop closed, new loop, bridge started again). Sub-check scenarios enumerates unbroken runs of 64..260 (thorough 1030) failing datagrams / raising callbacks followed by valid ones, a clock set back between repeats of one broadcast, long silences and loop replacement; sub-check soak pushes 66 000 (thorough 300 000) datagrams through one bridge port. Datagram kinds include byte-identical repeats of earlier datagrams (same or other port); the bridge is optionally stopped and started again before the traffic; the callback is a bound method, function, partial, bound method of an otherwise unreferenced object, or a callable that is falsy.')
 ASSUMPTIONS = [
     "loopback UDP keeps per-socket order; kernel drops (from /proc/net/udp) or a sentinel that needed retransmission make the case inconclusive",
     "gate-passing frames of a known model that the reference cannot vouch for (bit flips, undecodable fields) are 'unspecified': their tags are ignored, only their isolation is checked",
@@ -110,30 +110,53 @@ def build(i, d, caps):
     raise KeyError(k)
 
 
-async def run_history(case):
-    nports = case["ports"]
-    rig = udptx.Rig(nports)
-    rig.raise_on = set(case.get("raise_on", []))
-    caps = None
-    sent = []
-    await rig.start(case.get("callback", "bound-method"))
-    try:
-        for _ in range(case.get("restarts", 0)):
+class History:
+    """One case, run in phases so that the event loop can be replaced between two of them."""
+
+    def __init__(self, case):
+        self.case = case
+        self.nports = case["ports"]
+        self.rig = udptx.Rig(self.nports)
+        self.rig.raise_on = set(case.get("raise_on", []))
+        self.sent = []
+        self.built = []
+        self.traveller = None
+        self.now = case.get("t0", 1_700_000_000)
+        self.rig.quiet_windows = bool(case.get("scenario"))
+        self.stopped = []
+
+    async def begin(self):
+        rig = self.rig
+        await rig.start(self.case.get("callback", "bound-method"))
+        for _ in range(self.case.get("restarts", 0)):
             # "a running bridge" includes one that was stopped and started again
             await rig.bridge.stop()
             await asyncio.sleep(0)
             await asyncio.sleep(0)
             await rig.bridge.start()
-        built = []
-        for i, d in enumerate(case["dgrams"]):
-            if d["kind"] == "repeat" and built:
+
+    async def feed(self, lo, hi):
+        case, rig, nports = self.case, self.rig, self.nports
+        for i in range(lo, hi):
+            d = case["dgrams"][i]
+            if d["kind"] == "idle":
+                # nothing arrives for a while (event-loop time, harness-owned clock)
+                await net.idle(d["secs"])
+                continue
+            if d["kind"] == "clock":
+                # the host's wall clock is stepped (NTP correction, DST fall-back seen through naive local time)
+                self.now += d["delta"]
+                if self.traveller is not None:
+                    self.traveller.move_to(float(self.now))
+                continue
+            if d["kind"] == "repeat" and self.built:
                 # a byte-identical copy of an earlier datagram (devices repeat their status broadcast unchanged)
-                data, label, tag = built[d.get("of", 0) % len(built)]
+                data, label, tag = self.built[d.get("of", 0) % len(self.built)]
             elif d["kind"] == "repeat":
-                data, label, tag = build(i, dict(d, kind="valid"), caps)
+                data, label, tag = build(i, dict(d, kind="valid"), None)
             else:
-                data, label, tag = build(i, d, caps)
-            built.append((data, label, tag))
+                data, label, tag = build(i, d, None)
+            self.built.append((data, label, tag))
             if case.get("rival_at") is not None and i == case["rival_at"] % len(case["dgrams"]):
                 # a second bridge object that shares a port with this one tries to start (and fails): no business of ours
                 from aioswitcher.bridge import SwitcherBridge
@@ -148,18 +171,68 @@ async def run_history(case):
                     except Exception:
                         pass
             pi = d.get("port", 0) % nports
-            sent.append((pi, label, tag, d["kind"]))
-            await rig.send(rig.ports[pi], data)
-        dead = await rig.barrier()
+            try:
+                await rig.send(rig.ports[pi], data)
+            except udptx.DeliveryStopped as exc:
+                self.stopped = exc.ports        # no point in going on: the closing barrier reports it
+                return
+            self.sent.append((pi, label, tag, d["kind"]))
+
+    async def pause(self):
+        """Everything sent so far is delivered, then the bridge is stopped (the loop is about to be replaced)."""
+        self.dead_before = await self.rig.barrier()
+        await self.rig.bridge.stop()
+        self.rig.unobserve()
+        for _ in range(3):
+            await asyncio.sleep(0)
+
+    async def resume(self):
+        self.rig.observe()
+        await self.rig.bridge.start()
+
+    async def end(self):
+        rig = self.rig
+        dead = self.stopped or await rig.barrier()
+        dead = sorted(set(dead) | set(getattr(self, "dead_before", [])))
         tags = [getattr(dev, "device_id", None) for dev in rig.callbacks]
         names = [getattr(dev, "name", None) for dev in rig.callbacks]
-        return sent, tags, names, [rig.ports.index(p) for p in dead], list(rig.loop_errors), rig.invocations
+        return self.sent, tags, names, [rig.ports.index(p) for p in dead], list(rig.loop_errors), rig.invocations
+
+    async def close(self):
+        await self.rig.stop()
+
+
+def run_case(case):
+    import time_machine
+    h = History(case)
+    n = len(case["dgrams"])
+    cut = case.get("new_loop_at")
+    cut = None if cut is None else cut % (n + 1)
+    needs_clock = any(d["kind"] == "clock" for d in case["dgrams"])
+    ctx = time_machine.travel(float(h.now), tick=False) if needs_clock else None
+    if ctx is not None:
+        h.traveller = ctx.__enter__()
+    try:
+        try:
+            net.run(h.begin(), timeout=180)
+            if cut is None:
+                net.run(h.feed(0, n), timeout=None)
+            else:
+                net.run(h.feed(0, cut), timeout=None)
+                net.run(h.pause(), timeout=180)
+                net.new_loop()          # asyncio.run() called a second time: the bridge object is kept
+                net.run(h.resume(), timeout=180)
+                net.run(h.feed(cut, n), timeout=None)
+            return net.run(h.end(), timeout=180)
+        finally:
+            net.run(h.close(), timeout=60)
     finally:
-        await rig.stop()
+        if ctx is not None:
+            ctx.__exit__(None, None, None)
 
 
 def body(rep, case, sub="histories"):
-    sent, tags, names, dead, loop_errors, invocations = net.run(run_history(case), timeout=180)
+    sent, tags, names, dead, loop_errors, invocations = run_case(case)
     raise_on = set(case.get("raise_on", []))
     # non-triviality: a valid datagram after a bad one (or after a raising callback) on the same port
     nt = False
@@ -176,7 +249,9 @@ def body(rep, case, sub="histories"):
             bad_seen.add(pi)
     labels = sorted({f"has-{k}" for _, _, _, k in sent}) + [f"ports={case['ports']}"] + (["callback-raises"] if raise_on else []) + (
         ["after-restart"] if case.get("restarts") else []) + [f"callback={case.get('callback', 'bound-method')}"] + (
-        ["rival-bridge-mid-history"] if case.get("rival_at") is not None else [])
+        ["rival-bridge-mid-history"] if case.get("rival_at") is not None else []) + (
+        ["loop-replaced-mid-history"] if case.get("new_loop_at") is not None else []) + sorted(
+        {f"has-{d['kind']}" for d in case["dgrams"] if d["kind"] in ("idle", "clock")})
     rep.tick(sub, key=[(pi, label, kind) for pi, label, tag, kind in sent] + [sorted(raise_on)], nontrivial=nt, sample=case, labels=labels)
     ports_of = {}
     for pi, label, tag, kind in sent:
@@ -247,20 +322,119 @@ def dgram(nports):
         st.builds(lambda p, f, h, s: {"kind": "undecodable", "port": p, "family": f, "how": h, "seed": s}, port, fam, st.integers(0, 3), seed),
         st.builds(lambda p, f, o: {"kind": "repeat", "port": p, "family": f, "of": o}, port, fam, st.integers(0, 59)),
         st.builds(lambda p, f: {"kind": "repeat", "port": p, "family": f, "of": -1}, port, fam),
+        st.one_of(st.builds(lambda n: {"kind": "idle", "secs": n}, st.sampled_from([1, 61, 301, 3601, 90_000])),
+                  st.builds(lambda n: {"kind": "clock", "delta": n}, st.sampled_from([-86_400, -3600, -61, -1, 1, 3600, 86_400 * 400]))),
     )
 
 
 def strat(nports):
     return lambda: st.builds(
-        lambda ds, ro, rs, cb, rv: dict({"ports": nports, "dgrams": ds, "raise_on": sorted(set(ro))}, **({"restarts": rs} if rs else {}),
-                                        **({"callback": cb} if cb != "bound-method" else {}), **({"rival_at": rv} if rv is not None else {})),
+        lambda ds, ro, rs, cb, rv, nl: dict({"ports": nports, "dgrams": ds, "raise_on": sorted(set(ro))}, **({"restarts": rs} if rs else {}),
+                                            **({"callback": cb} if cb != "bound-method" else {}), **({"rival_at": rv} if rv is not None else {}),
+                                            **({"new_loop_at": nl} if nl is not None else {})),
         st.one_of(st.lists(dgram(nports), min_size=1, max_size=60), st.lists(dgram(nports), min_size=12, max_size=60)),
         st.one_of(st.just([]), st.lists(st.integers(0, 30), max_size=6)), st.sampled_from([0, 0, 0, 0, 1, 2]),
         st.sampled_from(["bound-method", "bound-method", "function", "partial", "unreferenced-owner", "falsy-callable"]),
-        st.one_of(st.none(), st.none(), st.integers(0, 59)))
+        st.one_of(st.none(), st.none(), st.integers(0, 59)),
+        st.one_of(st.none(), st.none(), st.none(), st.integers(0, 60)))
+
+
+def cases_scenarios(tier):
+    """Hand-shaped histories a random list is unlikely to contain: long unbroken runs of failures, a wall clock that is set
+    back between repeats of one device's broadcast, long silences, a replaced event loop."""
+    def gen_cases():
+        out = []
+        runs = [64, 70, 130, 260] + ([520, 1030] if tier == "thorough" else [])
+        for nports in (1, 2):
+            tail = [{"kind": "valid", "port": p, "family": f, "seed": 7 + f} for p in range(nports) for f in (0, 3, 6)]
+            for n in runs:
+                bads = [("undecodable-%d" % h, {"kind": "undecodable", "how": h}) for h in range(4)] + [
+                    ("foreign", {"kind": "foreign", "len": 165}), ("unknown", {"kind": "unknown", "code": 0x0b0b}),
+                    ("truncated", {"kind": "truncated", "cut": 3})]
+                for name, bad in bads:
+                    ds = [{"kind": "valid", "port": 0, "family": 1, "seed": 1}]
+                    ds += [dict(bad, port=0, family=(k % 9), seed=k) for k in range(n)]
+                    out.append({"ports": nports, "dgrams": ds + tail, "raise_on": [], "scenario": f"run-of-{name}"})
+                # the user callback fails n times in a row
+                ds = [{"kind": "valid", "port": 0, "family": k % 9, "seed": k} for k in range(n + 1)]
+                out.append({"ports": nports, "dgrams": ds + tail, "raise_on": list(range(1, n + 1)), "scenario": "run-of-raising-callbacks"})
+        for fam in range(len(FAMILIES)):
+            for back in (-1, -61, -3600, -86_400):
+                ds = [{"kind": "valid", "port": 0, "family": fam, "seed": fam}, {"kind": "clock", "delta": back},
+                      {"kind": "repeat", "port": 0, "family": fam, "of": 0}, {"kind": "clock", "delta": -5},
+                      {"kind": "repeat", "port": 0, "family": fam, "of": 0}, {"kind": "valid", "port": 0, "family": fam, "seed": 99},
+                      {"kind": "clock", "delta": 1800}, {"kind": "repeat", "port": 0, "family": fam, "of": 0}]
+                out.append({"ports": 1, "dgrams": ds, "raise_on": [], "t0": 1_635_641_995 + fam, "scenario": "clock-set-back"})
+        for secs in (61, 301, 3601, 90_000):
+            for nports in (1, 2):
+                ds = []
+                for k in range(4):
+                    ds += [{"kind": "valid", "port": k % nports, "family": k, "seed": k}, {"kind": "foreign", "port": k % nports, "len": 40 + k, "seed": k},
+                           {"kind": "idle", "secs": secs}, {"kind": "foreign", "port": k % nports, "len": 165, "seed": k},
+                           {"kind": "valid", "port": k % nports, "family": k + 4, "seed": k}]
+                out.append({"ports": nports, "dgrams": ds, "raise_on": [1], "scenario": "long-silence"})
+        for nports in (1, 2, 3):
+            for cut in (0, 3, 7):
+                ds = [{"kind": ("valid", "foreign", "valid", "undecodable")[k % 4], "port": k % nports, "family": k % 9, "seed": k, "how": k, "len": 165}
+                      for k in range(12)]
+                out.append({"ports": nports, "dgrams": ds, "raise_on": [2], "new_loop_at": cut, "scenario": "loop-replaced"})
+                out.append({"ports": nports, "dgrams": ds, "raise_on": [], "new_loop_at": cut, "restarts": 1, "callback": "function",
+                            "scenario": "loop-replaced"})
+        return out
+    return gen_cases
+
+
+def body_soak(rep, case):
+    """Tens of thousands of datagrams through ONE bridge object on one port: every valid one must still arrive exactly once."""
+    async def go():
+        rig = udptx.Rig(1)
+        rig.quiet_windows = True
+        await rig.start()
+        try:
+            port = rig.ports[0]
+            n, every = case["n"], case["valid_every"]
+            want = []
+            junk = pattern(165, 5)
+            junk = (b"\x00" + junk[1:]) if refb.gate(junk) else junk
+            for i in range(n):
+                if i % every == 0:
+                    tag = f"{(i // every) % 0xFFFFF0 + 1:06x}"
+                    want.append(tag)
+                    data = refb.encode(valid_fields(FAMILIES[(i // every) % len(FAMILIES)], tag, i))
+                else:
+                    data = junk
+                await rig.send(port, data)
+                if i % 4096 == 4095 and await rig.barrier():
+                    return want, [getattr(d, "device_id", None) for d in rig.callbacks], [port], list(rig.loop_errors), [], []
+            dead = await rig.barrier()
+            got = [getattr(d, "device_id", None) for d in rig.callbacks]
+            return want, got, dead, list(rig.loop_errors), rig.warnings_so_far(), list(rig.log_records)
+        finally:
+            await rig.stop()
+    want, got, dead, loop_errors, warns, logs = net.run(go(), timeout=900)
+    rep.tick("soak", key=case, nontrivial=True, sample=case, n=case["n"], labels=("soak",))
+    if dead:
+        raise Violation("C07/delivery-stops/soak", case, "closing sentinel delivered", {"loop_errors": loop_errors[:3]})
+    if want != got:
+        k = next((i for i, (a, b) in enumerate(zip(want, got)) if a != b), min(len(want), len(got)))
+        raise Violation("C07/soak-delivery-mismatch", case, {"valid_sent": len(want)},
+                        {"delivered": len(got), "first_difference_at_valid_no": k, "datagram_no": k * case["valid_every"],
+                         "loop_errors": loop_errors[:2]})
+    if loop_errors or warns:
+        raise Violation("C07/soak-noise", case, "no loop error, no warning", {"loop_errors": loop_errors[:2], "warnings": warns[:2]})
+
+
+def cases_soak(tier):
+    def gen_cases():
+        if tier == "thorough":
+            return [{"n": 70_000, "valid_every": 1}, {"n": 300_000, "valid_every": 10}, {"n": 140_000, "valid_every": 2}]
+        return [{"n": 66_000, "valid_every": 2}]
+    return gen_cases
 
 
 def subchecks(tier):
     big = tier == "thorough"
     return [Sub(f"histories/ports={n}", lambda rep, case, n=n: body(rep, case, f"histories/ports={n}"), strategy=strat(n),
-                n=40_000 if big else 1200, shards=4 if big else 2, shrink_budget=100) for n in (1, 2, 3, 4)]
+                n=40_000 if big else 1200, shards=4 if big else 2, shrink_budget=100) for n in (1, 2, 3, 4)] + [
+        Sub("scenarios", lambda rep, case: body(rep, case, "scenarios"), cases=cases_scenarios(tier), shards=4, exhaustive=False),
+        Sub("soak", body_soak, cases=cases_soak(tier), shards=3, exhaustive=False)]
